@@ -199,6 +199,9 @@ fn cmd_replay(args: &[String]) -> i32 {
     if let Some(st) = &r.stats {
         println!("trace_hash={} sched_hash={} steps={} switches={}", st.trace_hash, st.sched_hash, st.steps, st.switches);
     }
+    if std::env::var_os("SIM_DUMP").is_some() {
+        println!("SAMPLE {}", r.sample);
+    }
     if r.violations.iter().any(|x| x.class == class) {
         println!("VIOLATION property={} replay={}", id, path);
         1
